@@ -18,7 +18,8 @@ EXPLANATION = (
     "LF, CR, space, digits and gap characters, sequence lines are appended without per-line state, and only a "
     "line starting with '>' starts a record; (G4) the record id is the header line without '>' and surrounding "
     "whitespace (so a trailing CR disappears); (G5) the sample name derived from an input file name is the same for NAME and "
-    "NAME.gz: the derivation is evaluated in a string domain (models of std path/str/Option helpers) over a table of file names.")
+    "NAME.gz: the derivation is evaluated in a string domain (models of std path/str/Option helpers) over a table of file names; (G8) a PanSN header names its sample by its first two fields and (G9) the record reader "
+    "carries nothing from one record to the next - both by interpretation in the string domain over header sets.")
 UNDECIDED = ("PanSN vs per-file sample naming equivalence; byte identity of single-file vs multi-file archives "
              "(pipeline behaviour, exposed to the C04 known finding)")
 
